@@ -61,9 +61,59 @@ def work(item):
     pb = [ctx.poly(x) for x in b]
     MA = apply_map(re, im, xat, pa, d)
 
+    GEN = None
+
+    def generic(ps):
+        """the path taken by generic arguments (no special-case branch)"""
+        pins = [T.fcmp('oeq', t1, Fraction(37, 100)), T.fcmp('oeq', t2, Fraction(41, 100))] + [T.fcmp('oeq', hv[k], Fraction(3 + k, 17)) for k in diag_indices(d)]
+        pins += [T.fcmp('oeq', a[k], Fraction(5 + 2 * k, 31)) for k in range(n)] + [T.fcmp('oeq', b[k], Fraction(7 + 3 * k, 37)) for k in range(n)]
+        for p_ in ps:
+            if solver.check(p_.pc + pins) == 'sat':
+                return p_
+        return None
+
+    def special_vs(ps, g, oname, refs, what, key, meta):
+        """every non-generic branch must give the reference values (Terms, valid for all arguments) under its own branch condition"""
+        for p_ in ps:
+            if p_ is g:
+                continue
+            of_ = p_.out(oname)
+            if any(v is None for v in of_):
+                dec.candidate(key + ':unwritten', '%s leaves an output unwritten on the branch %s' % (what, ' & '.join(T.show(c_, 3) for c_ in p_.pc)[:120]), **meta)
+                continue
+            conv = S.Conv('real')
+            lem = []
+            for at in T.atoms_of([v for v in list(of_) + list(refs) if isinstance(v, Term)], ('sin', 'cos')):
+                u = conv.conv(at.args[0]) if isinstance(at.args[0], Term) else conv.rconst(at.args[0])
+                lem.append(z3.Implies(u == 0, conv.conv(at) == (0 if at.op == 'sin' else 1)))
+            tolz = conv.rconst(TOL)
+            viol = []
+            for k in range(len(refs)):
+                x_ = conv.conv(of_[k]) if isinstance(of_[k], Term) else conv.rconst(of_[k])
+                y_ = conv.conv(refs[k]) if isinstance(refs[k], Term) else conv.rconst(refs[k])
+                viol.append(z3.Or(x_ - y_ > tolz, y_ - x_ > tolz))
+            box = [z3.And(v_ >= -1, v_ <= 1) for v_ in conv.vars.values() if z3.is_real(v_)]
+            br = ' & '.join(T.show(c_, 3) for c_ in p_.pc)[:120]
+            r_, m_, _ = solver.check(p_.pc, conv=conv, extra=lem + box + [z3.Or(viol)], want_model=True,
+                                     label='%s on the special branch (%s) d=%d equals the generic formula' % (what, br[:80], d))
+            if r_ == 'sat':
+                names = ['a%d' % k for k in range(n)] + ['b%d' % k for k in range(n)] + ['h%d' % k for k in diag_indices(d)] + ['t1', 't2']
+                dec.candidate(key, 'on the branch %s, %s differs from the documented result' % (br, what),
+                              input={nm_: frac_str(S.model_value(m_, conv, nm_)) for nm_ in names if nm_ in conv.vars}, **meta)
+            elif r_ == 'unsat':
+                dec.holds('%s: special branch (%s) agrees with the generic formula, d=%d' % (what, br[:60], d))
+            else:
+                out['undecided'].append('%s special branch d=%d' % (what, d))
+
     def evolve(vec, t):
         ps = h.run('h_evolve', [I(d), Buf('a', vec), Buf('h', hv), D(t), Buf('o', n=n)])
         exstats.append(h.last_ex.stats)
+        if len(ps) > 1 and all(p_.status == 'ok' and p_.ret == 0 for p_ in ps):
+            # Evolve branches on its arguments: the generic branch is decided as usual, every special branch by a direct query against it
+            g = generic(ps)
+            if g is not None:
+                special_vs(ps, g, 'o', list(g.out('o')), 'A.Evolve(H,t)', 'evolve-special:d=%d' % d, dict(kind='evolve', d=d))
+                ps = [g]
         if len(ps) != 1 or ps[0].status != 'ok' or ps[0].ret != 0:
             out['broken'].append('h_evolve d=%d: %r' % (d, [(p.status, p.ret, p.info) for p in ps]))
             return None
@@ -247,6 +297,27 @@ def work(item):
                         oi = pi[0].out('a')
                         dec.decide('%s (result assigned onto the operand) = A.Evolve(H,t), d=%d' % (nm, d), [ctx.poly(x) - y for x, y in zip(oi, po)], 'inplace%d:d=%d' % (mode, d),
                                    dict(kind='inplace', mode=mode, d=d))
+                    # compound forms and forms carrying a valid guarantee (sizes equal, nothing promised about aliasing)
+                    forms = {2: ('B += A.Evolve(H,t)', 'b', 1), 3: ('B -= A.Evolve(H,t)', 'b', -1), 4: ('B += A.Evolve(buf)', 'b', 1), 5: ('B -= A.Evolve(buf)', 'b', -1),
+                             6: ('A = guarantee<EqualSizes>(A.Evolve(H,t))', 'a', 0), 7: ('A = guarantee<EqualSizes>(A.Evolve(buf))', 'a', 0)}
+                    for mode, (nm, oname, sg) in forms.items():
+                        pi = h.run('h_inplace2', [I(mode), I(d), Buf('a', a), Buf('b', b), Buf('h', hv), D(t1), Buf('buf', buf)])
+                        exstats.append(h.last_ex.stats)
+                        refs = list(O1) if sg == 0 else [T.fadd(b[k], O1[k]) if sg > 0 else T.fsub(b[k], O1[k]) for k in range(n)]
+                        if len(pi) > 1 and all(p_.status == 'ok' and p_.ret == 0 for p_ in pi):
+                            g = generic(pi)
+                            if g is not None:
+                                special_vs(pi, g, oname, refs, nm, 'inplace%d-special:d=%d' % (mode, d), dict(kind='inplace2', mode=mode, d=d))
+                                pi = [g]
+                        if len(pi) != 1 or pi[0].status != 'ok' or pi[0].ret != 0:
+                            out['broken'].append('h_inplace2 %d d=%d: %r' % (mode, d, [(p_.status, p_.ret, p_.info) for p_ in pi]))
+                            continue
+                        oi = pi[0].out(oname)
+                        if any(v is None for v in oi):
+                            dec.candidate('inplace%d:d=%d:unwritten' % (mode, d), '%s leaves a component unwritten' % nm, kind='inplace2', mode=mode, d=d)
+                            continue
+                        dec.decide('%s = the documented result, d=%d' % (nm, d), [ctx.poly(x) - ctx.poly(y) for x, y in zip(oi, refs)], 'inplace%d:d=%d' % (mode, d),
+                                   dict(kind='inplace2', mode=mode, d=d))
     if trig.unmatched:
         out['obligations'].append({'obligation': 'unmatched trig atoms d=%d' % d, 'verdict': '%d' % len(trig.unmatched)})
     out.update(worker_result(solver, exstats, functions=FUNCS))
@@ -313,6 +384,14 @@ def replay(chk, h, c):
             ret, ob = h.native('h_prepare', [I(d), Buf('h', hv), D(t1), Buf('buf', [np.nan] * (d * (d - 1)))])
             ret, o = h.native('h_inplace', [I(c['mode']), I(d), Buf('a', av), Buf('h', hv), D(t1), Buf('buf', ob['buf'])])
             worst = max(worst, np.abs(np.array(o['a']) - o1).max())
+        elif kind == 'inplace2':
+            bv = np.array([inp.get('b%d' % i, 0.25 + 0.1 * i) for i in range(n)])
+            ret, ob = h.native('h_prepare', [I(d), Buf('h', hv), D(t1), Buf('buf', [np.nan] * (d * (d - 1)))])
+            ret, o = h.native('h_inplace2', [I(c['mode']), I(d), Buf('a', av), Buf('b', bv), Buf('h', hv), D(t1), Buf('buf', ob['buf'])])
+            md = c['mode']
+            exp_ = o1 if md in (6, 7) else (bv + o1 if md in (2, 4) else bv - o1)
+            got = np.array(o['a'] if md in (6, 7) else o['b'])
+            worst = max(worst, np.abs(got - exp_).max())
         elif kind == 'twostep':
             ret, ob = h.native('h_prepare', [I(d), Buf('h', hv), D(t1), Buf('buf', [np.nan] * (d * (d - 1)))])
             ret, o = h.native('h_fast', [I(d), Buf('a', av), Buf('buf', ob['buf']), Buf('o', [np.nan] * n)])
